@@ -233,6 +233,42 @@ def run(tier):
                       "%s: without a lexical guard texts outside the core schema are typed as numbers" % what, site=site(f, t["sp"]),
                       detail={"argument": cfg.expr_str(arg)})
     rep.floor("permissive std parser calls needing a guard", n, 2)
+    # (e) no parsed number is converted with a lossy `as`
+    from engine import callgraph
+    edges, _ = callgraph.build(F)
+    reach = {k for k in callgraph.reachable(edges, [pfm.key, pfc.key]) if k in F.fns and F.fns[k].crate == "saphyr"}
+    for k in list(reach):
+        reach |= {c.key for c in F.closures_of(k)}
+    INT = {"u8": (0, 8), "u16": (0, 16), "u32": (0, 32), "u64": (0, 64), "usize": (0, 64), "u128": (0, 128),
+           "i8": (1, 8), "i16": (1, 16), "i32": (1, 32), "i64": (1, 64), "isize": (1, 64), "i128": (1, 128)}
+    ncast = 0
+    for k in sorted(reach):
+        g = F.fns[k]
+        for bi, si, st in cfg.stmts(g):
+            if st["k"] != "assign" or st["rv"]["k"] != "cast":
+                continue
+            to = st["rv"].get("ty")
+            a = st["rv"]["a"]
+            l = is_local(a)
+            frm = g.locals[l]["ty"] if l is not None else (op_const(a) or {}).get("ty")
+            if to not in INT and to not in ("f32", "f64") or frm not in INT and frm not in ("f32", "f64", "char", "bool"):
+                continue
+            ncast += 1
+            lossless = False
+            if frm in INT and to in INT:
+                (fs, fb), (ts, tb) = INT[frm], INT[to]
+                lossless = (fs == ts and tb >= fb) or (fs == 0 and ts == 1 and tb > fb)
+            elif frm in ("char", "bool", "u8") and to in INT:
+                lossless = INT[to][1] >= 32 or frm != "char"
+            elif frm in INT and to == "f64":
+                lossless = INT[frm][1] <= 32
+            elif frm == "f32" and to == "f64":
+                lossless = True
+            rep.check(lossless, "no-lossy-cast", "%s: %s as %s" % (short(k), frm, to), "the resolver converts a number with a lossy `as` (%s -> %s): values outside the target's "
+                      "range silently become a different value instead of staying a string" % (frm, to), site=site(g, st["sp"]))
+    rep.extra["numeric_casts_in_resolver"] = ncast
+    rep.extra["resolver_functions"] = len(reach)
+    rep.floor("functions reachable from the resolver", len(reach), 4)
     return rep
 
 
